@@ -235,6 +235,27 @@ def gen_sortlist_unit(rng):
             "input": jm.dumps({"arr": arr}).encode("utf-8"), "policy": rng.choice(POLICIES)}
 
 
+def gen_arity_unit(rng):
+    """Every function name with 0..5 arguments drawn from a few boundary values: most of these calls are rejected when the
+    expression is parsed (an error, fine); whatever is accepted must evaluate without a panic.  (The table of names is the
+    documented one; the number of arguments is NOT taken from it.)"""
+    import json as _json
+    global _FUNCTION_NAMES
+    try:
+        _FUNCTION_NAMES
+    except NameError:
+        t = _json.load(open(os.path.join(os.path.dirname(os.path.dirname(os.path.abspath(__file__))), "function_table.json")))
+        _FUNCTION_NAMES = sorted((x["name"] if isinstance(x, dict) else x) for x in (t if isinstance(t, list) else t.get("functions", t)))
+        _FUNCTION_NAMES = [n for n in _FUNCTION_NAMES if n not in ("exec", "trigger", "now")]
+    f = rng.choice(_FUNCTION_NAMES)
+    pool = ["0", "1", "-1", "0.0", "\"\"", "\"a\"", "null", "[]", "[1,2,3]", "{}", ".n", ".arr", ".s", "10", "true", "(size [])", ".nosuch", "3", "2"]
+    exprs = []
+    for n in rng.sample(range(0, 6), 3):
+        exprs.append("(%s%s)" % (f, "".join(" " + rng.choice(pool) for _ in range(n))))
+    return {"kind": "expr", "pos": "select", "exprs": exprs[:1], "funcs": ["arity:" + f], "arity": True,
+            "input": b'{"n":0,"arr":[1,2,3],"s":"x"} {"n":5,"arr":[],"s":""}', "policy": rng.choice(POLICIES)}
+
+
 def gen_exec_unit(rng):
     """`exec` with a fixed list of harmless commands: whatever the child does with its two pipes and its exit status, jawk
     comes back with a value or nothing."""
@@ -315,7 +336,7 @@ def worker(ctx):
                 st.count("stopped_by_deadline")
                 break
             r = ctx.rng.random()
-            unit = gen_bytes_unit(ctx.rng) if r < 0.3 else gen_matrix_unit(ctx.rng) if r < 0.42 else gen_exec_unit(ctx.rng) if r < 0.425 else gen_deep_unit(ctx.rng) if r < 0.435 else gen_sortlist_unit(ctx.rng) if r < 0.45 else gen_expr_unit(ctx.rng)
+            unit = gen_bytes_unit(ctx.rng) if r < 0.3 else gen_matrix_unit(ctx.rng) if r < 0.42 else gen_exec_unit(ctx.rng) if r < 0.425 else gen_deep_unit(ctx.rng) if r < 0.435 else gen_sortlist_unit(ctx.rng) if r < 0.45 else gen_arity_unit(ctx.rng) if r < 0.50 else gen_expr_unit(ctx.rng)
             if unit["kind"] == "expr" and ctx.debug_drv is not None and ctx.rng.random() < 0.35:
                 unit["debug"] = True
             run_unit(ctx, unit)
